@@ -24,4 +24,5 @@ def run(prog, rep, tier):
     apply(rep, "Z2", "brief string rendering reads back as the same bytes (writer interpreted, reader simulated from lexer.ll)", r_tables.z2(prog), 3)
     apply(rep, "Z3", "hex fields are zero filled", r_tables.z3(prog), 2)
     apply(rep, "Z4", "integers render in their domain's radix and read back as the same value of the same domain (renderers interpreted on every bit length)", r_tables.z4(prog, tier), 4)
+    apply(rep, "Z5", "`value` / `%d` give the same number in the decimal domain for constants of every kind of domain (op_value_cst::operate interpreted)", r_tables.z5(prog), 1)
     maybe_mutants("C20", rep, tier)
